@@ -239,9 +239,73 @@ impl Sys for PeriodProduct {
     }
 }
 
+/// What an [E45] message says about the two TDHs it compares: every sequence of three no-data internal TDHs over
+/// (orbit, BC) in {o, o+1} x {0, 100, 3563}, one per page, period 100. Each message must quote the orbit_BC of the TDH
+/// at its own offset as "Current" and that of the internal TDH before it as "Previous".
+fn period_message_cases() -> (u64, u64, Option<(String, String)>) {
+    let cfg = val::cfg(&CfgKey { mode: Some(Mode::AllStave), trigger_period: Some(100), ..Default::default() });
+    let base = Rdh::base();
+    let alphabet: Vec<(u32, u16)> = [0u32, 1].iter().flat_map(|o| [0u16, 100, 3563].into_iter().map(move |b| (base.orbit + o, b))).collect();
+    let quote = |m: &str, key: &str| -> Option<(u64, u64)> {
+        let i = m.find(key)?;
+        let rest = m[i + key.len()..].lines().next()?.trim();
+        let (o, b) = rest.split_once('_')?;
+        Some((o.trim().parse().ok()?, b.trim().parse().ok()?))
+    };
+    let mut n = 0u64;
+    let mut judged = 0u64;
+    for a in &alphabet {
+        for b in &alphabet {
+            for c in &alphabet {
+                let seq = [*a, *b, *c];
+                let mut st = val::CdpStepper::new(cfg);
+                let mut prev: Option<(u32, u16)> = None;
+                for (i, (orbit, bc)) in seq.iter().enumerate() {
+                    let mut r = base.clone();
+                    r.pages_counter = i as u16;
+                    let pos = 0x1000 * i as u64;
+                    if st.set_rdh(&r.encode(), pos).is_err() {
+                        return (n, judged, Some(("panic".into(), "set_rdh panicked".into())));
+                    }
+                    let _ = st.word(&words::ihw(0x7));
+                    let tdh = words::Tdh { trigger_type: (r.trigger_type & 0xFFF) as u16, internal: true, no_data: true, continuation: false, bc: *bc, orbit: *orbit };
+                    let msgs = match st.word(&tdh.encode()) {
+                        Ok(m) => val::error_texts(&m),
+                        Err(p) => return (n, judged, Some(("panic".into(), p))),
+                    };
+                    n += 1;
+                    for m in msgs.iter().filter(|m| m.contains("[E45]")) {
+                        judged += 1;
+                        let cur = quote(m, "Current  TDH Orbit_BC:").or_else(|| quote(m, "Current TDH Orbit_BC:"));
+                        let prv = quote(m, "Previous TDH Orbit_BC:");
+                        let want_cur = Some((*orbit as u64, *bc as u64));
+                        let want_prv = prev.map(|(o, b)| (o as u64, b as u64));
+                        if cur != want_cur || prv != want_prv {
+                            return (n, judged, Some(("period:E45:message-quotes-other-values".into(), format!("TDHs {:?}: the message at the third / current TDH quotes previous {:?} and current {:?}, the words hold previous {:?} and current {:?}: {}", seq, prv, cur, want_prv, want_cur, m.replace('\n', " | ")))));
+                        }
+                    }
+                    prev = Some((*orbit, *bc));
+                }
+            }
+        }
+    }
+    (n, judged, None)
+}
+
 pub fn run(tier: Tier) -> i32 {
     val::init_process();
     let mut rep = Reporter::new("C20", tier, "model_checking");
+    {
+        let (n, judged, bad) = period_message_cases();
+        rep.cov("period_message_tdhs", json!(n));
+        rep.cov("period_messages_judged", json!(judged));
+        if judged == 0 && bad.is_none() {
+            rep.machinery_error("no [E45] message was produced by the period-message sequences (vacuous)".into());
+        }
+        if let Some((sig, d)) = bad {
+            rep.violation(Violation { signature: sig, description: d, replay: json!({"kind": "period-message"}) });
+        }
+    }
     let t = stream();
     let mode = ["check", "all", "its-stave"];
     // baseline: no file
